@@ -45,6 +45,8 @@ def main():
             e = dict(env)
             e["LIAN_ROOT"] = wt
             e["SEED_WORKTREE"] = wt
+            e["LIAN_WT"] = wt
+            e["LIAN_SRC"] = os.path.join(wt, "src")
             p = run(["/venv/bin/python", os.path.join(wt, "seed_demo.py")] + demo_args, env=e, cwd=wt, timeout=1800)
             return p.returncode, (p.stdout + p.stderr)[-600:]
         rc0, out0 = run_demo()
